@@ -23,7 +23,7 @@ RULE = (
     "families: additive linear (linear=True; stationary, or with an exact random walk with drift = linear trend), "
     "log-linear with log-variables (stationary or a log random walk with drift = balanced growth), anchored "
     "nonlinear; drawn parameters, 1-2 variants, starting guesses = known steady state perturbed by <=20%, flat "
-    "flag, split_into_blocks flag, optional steady plan (fix_level of the trending variable, or exogenize a variable "
+    "flag, split_into_blocks flag, optional steady plan (fix_level of the trending variable, fix_change of it with the drift endogenized, or exogenize a variable "
     "+ endogenize a parameter). Non-trivial iff solve_steady completed and the model has growth, a log-variable, a "
     "plan, a nonlinear term or more than one variable."
 )
@@ -34,7 +34,7 @@ ASSUMPTIONS = [
     "flat=True is only drawn for models without drift (a flat steady state is then the right concept)",
     "results in which a log-variable level is outside (1e-6, 1e6) are counted as degenerate pseudo-solutions of the absolute residual test and not judged",
     "equations are evaluated in the form they are written (levels for the multiplicative rendering), as the solver sees them",
-    "steady plans are exercised with the nonlinear steady solver only (linear=False); the linear solver does not take plans",
+    "steady plans are exercised with the nonlinear steady solver only (a model created with linear=False, or created with linear=True and solved with the override solve_steady(linear=False)); the linear solver does not take plans",
     "chain family: a 2x2 simultaneous core followed by a chain of 2-3 definitional equations written in a drawn order (every link of the block ordering matters)",
     "flat-override history: a model created with flat=False that carries non-neutral changes is solved with solve_steady(flat=True) and must store a flat steady state",
     "plans: exactly identified; the endogenized parameter is one the harness knows enters the exogenized variable's equation",
@@ -83,7 +83,8 @@ def _case(draw):
             p["value"] = [p["value"], round(p["value"] * draw(st.sampled_from([0.5, 0.8, 1.1])), 6)]
     plan = "none"
     if rw is not None and draw(st.booleans()):
-        plan = "fix_level"
+        # fix the level of the trending variable, or fix its growth and back out the drift (a parameter then)
+        plan = draw(st.sampled_from(["fix_level", "fix_level", "fix_change"])) if nv == 1 else "fix_level"
     elif spec["params"] and nv == 1 and fam in ("log", "nl", "additive") and draw(st.booleans()):
         plan = "swap"
     pert = [draw(st.floats(-0.2, 0.2, allow_nan=False).map(lambda x: round(x, 3))) for _ in range(n)]
@@ -92,14 +93,24 @@ def _case(draw):
             "flat_override": draw(st.integers(0, 2)) == 0,
             "split": draw(st.sampled_from([True, False, None])),
             "fixed_value": draw(st.sampled_from([1.0, 2.5, 0.7])),
-            "target_shift": draw(st.sampled_from([0.1, -0.1, 0.05]))}
+            "target_shift": draw(st.sampled_from([0.1, -0.1, 0.05])),
+            # a looser eigenvalue tolerance stored on the model must not loosen the steady-state solver
+            "eig_tol": draw(st.sampled_from([None, None, 1e-5, 1e-6])),
+            # a model declared linear=True solved with the explicit override solve_steady(linear=False): the
+            # nonlinear solver (and with it the plan) must be used
+            "linear_override": draw(st.sampled_from([False, False, True]))}
 
 
 def _classify(case):
     spec = case["spec"]
+    extra_ = []
+    if case.get("eig_tol"):
+        extra_.append("eigenvalue_tolerance_loosened")
+    if case.get("linear_override") and not (spec["log"] or lm.nl_terms(spec)):
+        extra_.append("declared_linear_solved_nonlinear")
     labels = [f"family_{case['family']}", f"plan_{case['plan']}", f"variants_{case['nv']}",
               "flat_override_history" if (case.get("flat_override") and case["flat"]) else "no_history",
-              "flat" if case["flat"] else "nonflat", f"split_{case['split']}"]
+              "flat" if case["flat"] else "nonflat", f"split_{case['split']}"] + extra_
     return True, labels
 
 
@@ -122,6 +133,9 @@ def _spec_for_variant(spec, v, overrides=None):
             p["value"] = p["value"][v]
         if overrides and p["name"] in overrides:
             p["value"] = overrides[p["name"]]
+    for e in s["eqs"]:
+        if e.get("const_param") and overrides and overrides.get(e["const_param"]) is not None:
+            e["const"] = overrides[e["const_param"]]
     return s
 
 
@@ -162,18 +176,28 @@ def _check(case):
     col = Collector()
     spec = case["spec"]
     fam, rw, nv = case["family"], case["rw"], case["nv"]
+    if case["plan"] == "fix_change":
+        spec = copy.deepcopy(spec)
+        spec["eqs"][rw]["const_param"] = "gdrift"
     for v in range(nv):
         sv = _spec_for_variant(spec, v)
         if not _stable_part_ok(sv, rw, v=None):
             return {"labels": ["model_not_in_domain"], "nontrivial": False}
         if rw is None and lm.steady(sv)[0] is None:
             return {"labels": ["singular_or_extreme_steady"], "nontrivial": False}
-    linear = not (spec["log"] or lm.nl_terms(spec) or case["plan"] != "none")     # plans belong to the nonlinear solver
+    can_be_linear = not (spec["log"] or lm.nl_terms(spec))
+    lin_override = bool(case.get("linear_override")) and can_be_linear
+    # `linear`: is the linear steady solver the one that runs (plans belong to the nonlinear solver)
+    linear = can_be_linear and case["plan"] == "none" and not lin_override
     override = bool(case.get("flat_override")) and case["flat"] and not linear
-    m = api("from_string", ir.Simultaneous.from_string, lm.source(spec), linear=linear, flat=(False if override else case["flat"]))
+    m = api("from_string", ir.Simultaneous.from_string, lm.source(spec), linear=(linear or lin_override), flat=(False if override else case["flat"]))
+    if case.get("eig_tol"):
+        api("override_tolerance", lambda: m.override_tolerance(eigenvalue=case["eig_tol"]))
     if nv > 1:
         api("alter_num_variants", m.alter_num_variants, nv)
     api("assign_parameters", lambda: m.assign(**{p["name"]: p["value"] for p in spec["params"]}))
+    if case["plan"] == "fix_change":
+        api("assign_drift", lambda: m.assign(gdrift=spec["eqs"][rw]["const"]))
     f = math.exp if spec["log"] else float
     # starting guesses: known steady state perturbed (stationary families); neutral values for growth families
     guess = {}
@@ -194,6 +218,7 @@ def _check(case):
     # ---- plan ---------------------------------------------------------------------------
     plan = None
     fixed = {}
+    fixed_changes = {}
     endogenized = None
     if case["plan"] == "fix_level":
         nm = spec["names"][rw]
@@ -202,6 +227,16 @@ def _check(case):
         plan = ir.SteadyPlan(m)
         api("plan:fix_level", plan.fix_level, nm)
         fixed[nm] = val
+    elif case["plan"] == "fix_change":
+        # the growth of the trending variable is fixed at another value than its drift; the drift is endogenized
+        nm = spec["names"][rw]
+        want_drift = spec["eqs"][rw]["const"] + case["target_shift"]
+        fixed_change = math.exp(want_drift) if spec["log"] else want_drift
+        api("assign_fixed_change", lambda: m.assign(**{nm: ((guess[nm] if not isinstance(guess[nm], list) else guess[nm][0]), fixed_change)}))
+        plan = ir.SteadyPlan(m)
+        api("plan:fix_change", plan.fix_change, nm)
+        api("plan:endogenize", plan.endogenize, "gdrift")
+        fixed_changes[nm] = fixed_change
     elif case["plan"] == "swap":
         # exogenize the variable of an equation that carries a parameter, endogenize that parameter
         cand = [(i, t[3]) for i, e in enumerate(spec["eqs"]) for t in e["terms"] if len(t) > 3 and t[3] is not None]
@@ -224,6 +259,8 @@ def _check(case):
         kwargs["split_into_blocks"] = case["split"]
     if override:
         kwargs["flat"] = True
+    if lin_override:
+        kwargs["linear"] = False
     try:
         m.solve_steady(**kwargs)
     except Exception as exc:  # noqa: BLE001 - the property is conditional on completion
@@ -242,6 +279,8 @@ def _check(case):
     names = spec["names"] + lm.meas_names(spec)
     for v in range(nv):
         over = {p["name"]: pick(params, p["name"], v) for p in spec["params"]}
+        if case["plan"] == "fix_change":
+            over["gdrift"] = pick(params, "gdrift", v)
         sv = _spec_for_variant(spec, v, over)
         lv = {nm: pick(levels, nm, v) for nm in names}
         ch = {nm: pick(changes, nm, v) for nm in names}
@@ -258,6 +297,12 @@ def _check(case):
         # planned quantities keep their assigned values
         for nm, val in fixed.items():
             col.check(abs(lv[nm] - val) <= 1e-12 * (1 + abs(val)), "plan:fixed_value_changed", lambda: f"{nm}: {lv[nm]!r} assigned {val!r}")
+        for nm, val in fixed_changes.items():
+            col.check(ch[nm] is not None and abs(ch[nm] - val) <= 1e-12 * (1 + abs(val)), "plan:fixed_change_changed",
+                      lambda: f"{nm}: steady change {ch[nm]!r}, fixed at {val!r}\n{lm.source(sv)}")
+            got_drift = over.get("gdrift")
+            col.check(got_drift is not None and abs(got_drift - want_drift) <= 1e-8, "plan:endogenized_drift_wrong",
+                      lambda: f"endogenized drift {got_drift!r}, the value that makes the equation hold at the fixed growth is {want_drift!r}\n{lm.source(sv)}")
         if endogenized is not None:
             old = [p["value"] for p in spec["params"] if p["name"] == endogenized][0]
             col.check(abs(over[endogenized] - old) > 1e-9, "plan:endogenized_parameter_unchanged",
